@@ -38,6 +38,15 @@ def check(ctx) -> None:
     r44(ctx)
     r45(ctx)
     r46(ctx)
+    from . import c15
+    before = len(ctx.rules)
+    c15.r156(ctx)
+    r = ctx.rules[before]
+    r.id = 'R4.7'
+    r.title = 'the UID list is read under the lock it is written back ' \
+              'under (= R15.6)'
+    for i in r.instances:
+        i.rule = 'R4.7'
 
 
 def _increment_form(s: ast.AST, t: ast.Attribute):
